@@ -797,6 +797,7 @@ def instance_coverage(ps, named):
     pairwise disjoint leading classes (checked for every character code; the classes are those proved by
     leaf_accepts_only).  Returns {name: "covered: <lemma>" | "not covered: <reason>"}; never a verdict on the property."""
     from contracts.c15_leaf_codecs import leading_class
+    restricted = []
 
     def leaf_class(c):
         n = type(c).__name__
@@ -814,6 +815,10 @@ def instance_coverage(ps, named):
             if any(a != b and (a.startswith(b) or b.startswith(a)) for a in c._after for b in c._after):
                 return None
             return leading_class("Dict", after=list(c._after))
+        if n == "YajilinClue" and type(c).__module__.endswith("puzzle.yajilin"):
+            # contracts/c16_yajilin_clue.py: round trip on the domain "??" / direction + number 0..15, first character 0..4
+            restricted.append("clue numbers 0..15")
+            return lambda code: 48 <= code <= 52
         return None
 
     def item_level(c):
@@ -842,8 +847,10 @@ def instance_coverage(ps, named):
     for name, c in named:
         n = type(c).__name__
         if n in ("Grid", "Seq"):
+            del restricted[:]
             ok, why, _ = item_level(c._base)
-            out[name] = ("covered: %s_RT over %s, problem_roundtrip" % (n.lower(), why)) if ok else "not covered: " + why
+            dom = (" on the domain " + ", ".join(sorted(set(restricted)))) if restricted else ""
+            out[name] = ("covered%s: %s_RT over %s, problem_roundtrip" % (dom, n.lower(), why)) if ok else "not covered: " + why
         else:
             out[name] = "not covered: top-level %s (bounded only)" % n
     return out
